@@ -25,6 +25,12 @@ ASSUME Fq!Val(Fq!Mont(FromNat(12345))) = FromNat(12345) /\ Fr!Val(Fr!Mont(FromNa
 ASSUME ModN(Sub(r, One), Pow2(32)) = Zero /\ ModN(Sub(r, One), Pow2(33)) # Zero
 \* cofactor of E(Fq): h1 * r = q + 1 - t with t = x + 1
 ASSUME Mul(H1, r) = Add(Add(q, One), Sub(XAbs, One))
+\* base-|x| decomposition (PowersOfX::decompose): for every 256-bit scalar y the top coefficient of y (or y - r when y >= r)
+\* still fits the 64-bit register it is truncated into -- a numeric fact of these parameters (it fails on toy members of
+\* the family), although it may exceed |x| for y >= 2r - ...; the wNAF buffers are sized for 64-bit coefficients
+ASSUME LET x3 == Mul(Mul(XAbs, XAbs), XAbs) IN
+         /\ Lt(Div(Sub(Sub(Pow2(256), One), r), x3), Pow2(64))
+         /\ Lt(Div(Sub(r, One), x3), XAbs)
 VARIABLE dummy
 Init == dummy = 0
 Next == UNCHANGED dummy
